@@ -179,6 +179,9 @@ class Reentrant(Part):
                     for _ in range(240):
                         pts.append({"pos": [list(rng.choice(angles)) for _ in range(m - 1)], "dist": [rng.randrange(5) for _ in range(10)]})
                     cases.append({"kind": "threads", "family": family, "m": m, "points": pts})
+                # the same question without leaving it to the scheduler: point A is being evaluated, and at its k-th read of a coordinate
+                # another evaluation (point B, same problem object) runs to completion -- for every k; both results are the lattice values
+                cases.append({"kind": "interleaved", "family": family, "m": m, "points": pts[:8 if ctx.quick else 40]})
         return cases
 
     def run_case(self, ctx, case):
@@ -199,6 +202,8 @@ class Reentrant(Part):
                     theta = 2.0 / math.pi * math.atan2(s_, c)
                     x.append(theta ** 0.01 if family == "dtlz4" else theta)
             xs.append(x + [q / 4.0 for q in p["dist"]])
+        if case["kind"] == "interleaved":
+            return self.interleaved(case, prob, xs)
         results = [None] * len(xs)
         nthreads = 4
         barrier = threading.Barrier(nthreads)
@@ -217,8 +222,13 @@ class Reentrant(Part):
                 t.join()
         finally:
             sys.setswitchinterval(old)
+        return self.events(case, case["points"], xs, results)
+
+    @staticmethod
+    def events(case, points, xs, results):
+        family, m = case["family"], case["m"]
         trace = []
-        for p, x, (st, res) in zip(case["points"], xs, results):
+        for p, x, (st, res) in zip(points, xs, results):
             ev = {"ev": "point", "family": family, "m": m, "pos": p["pos"], "dist": p["dist"], "f": [], "n": len(x), "exact": True, "exc": ""}
             if st == "exc":
                 ev["exc"] = res
@@ -230,11 +240,52 @@ class Reentrant(Part):
             trace.append(ev)
         return trace
 
+    def interleaved(self, case, prob, xs):
+        from artap.individual import Individual
+
+        class Paused(list):
+            """a design vector that can tell when it is read: the at-th read of an element (index, slice or iteration step) first lets `hook` run"""
+            def __init__(self, data, at, hook):
+                super().__init__(data)
+                self.reads, self.at, self.hook = 0, at, hook
+
+            def tick(self):
+                self.reads += 1
+                if self.reads - 1 == self.at:
+                    self.hook()
+
+            def __getitem__(self, i):
+                self.tick()
+                return list.__getitem__(self, i)
+
+            def __iter__(self):
+                for k in range(len(self)):
+                    self.tick()
+                    yield list.__getitem__(self, k)
+
+        points, out_x, results = [], [], []
+        for a in range(0, len(xs) - 1, 2):
+            b = a + 1
+            probe = Individual([0.0])
+            probe.vector = Paused(xs[a], -1, None)
+            observe(prob.evaluate, probe)
+            reads = probe.vector.reads
+            ks = list(range(reads)) if reads <= 24 else sorted(set(int(reads * q / 24.0) for q in range(24)))
+            for k in ks:
+                inner = []
+                ind = Individual([0.0])
+                ind.vector = Paused(xs[a], k, lambda: inner.append(observe(prob.evaluate, Individual(list(xs[b])))))
+                res_a = observe(prob.evaluate, ind)
+                points += [case["points"][a]] + ([case["points"][b]] if inner else [])
+                out_x += [xs[a]] + ([xs[b]] if inner else [])
+                results += [res_a] + inner[:1]
+        return self.events(case, points, out_x, results)
+
     def key(self, case, trace, fail):
         return "bench-concurrent:%s:%s" % (case["family"], fail["clause"])
 
     def sample(self, case, trace):
-        return {"case": {"kind": "threads", "family": case["family"], "m": case["m"]}, "trace": trace[:2]}
+        return {"case": {"kind": case["kind"], "family": case["family"], "m": case["m"]}, "trace": trace[:2]}
 
 
 def run(ctx, replay=None):
